@@ -18,6 +18,12 @@ Open Scope Z_scope.
    LasData.write, laspy.read (whose read() may fail after its open succeeded), several sessions one after the other, the
    caller moving the stream in between. Each time laspy lets go of a stream that was open when it got it,
    the stream is closed iff the caller said closefd (obs_ok; for LasData.write the "closefd" is false).
+   The histories include the failures of the stream's own methods (read/readinto/seek/tell/write/flush/truncate raising
+   OSError, any other Exception, or a BaseException that is not one): while opening (outcome OFault), under an operation
+   on the handle (EOpFault, followed by anything: further operations, the exception leaving the with block, a normal
+   exit, close()), inside laspy.read after its open (EReadLasFault), inside LasData.write, and inside the close method
+   itself (EEndFault); for that last case obs_ok states one direction (a stream laspy was told to leave open is left
+   open), the other one is C18_iff_close_fault_partial.
    The single exit excluded by obs_ok is HPrecondition — mode w asserting that the destination is seekable BEFORE its
    try block — which is not among the failures the property lists (invalid content, unusable header); what happens there
    is C18_w_nonseekable_untouched. *)
@@ -29,6 +35,75 @@ Print Assumptions C18_iff.
 Theorem C18_iff_bool : forall cap p evs, forallb obs_okb (st_log (run (init_at cap p) evs)) = true.
 Proof. exact ownership_iff_b. Qed.
 Print Assumptions C18_iff_bool.
+
+(* FULL STATEMENT (not provable of the model of the current source, see below):
+     forall cap p evs, Forall obs_ok_full (st_log (run (init_at cap p) evs))
+   i.e. the iff also when the close method itself raises because the stream failed under it (with-exit or close() in
+   mode w / a: the header is rewritten, the EVLRs are moved). PARTIAL: it is proved under the hypothesis that every
+   statement of the generated close methods that may use the stream is followed, when it raises, by the close action
+   (close_faults_safeb, a boolean computed from Gen/GenOwnership.v: gen_close_*_faults). MISSING: LasWriter.close and
+   LasAppender.close of the current source run `if self.closefd: self.dest.close()` only after the header rewrite
+   succeeded (no try/finally): close_faults_safeb computes to false, a stream handed over with closefd=True is left open
+   when close() fails. The oracle of harness/props/c18.py reports that as a failing input (kind
+   "mode=w|a closefd=True -> closed=False after a stream fault in close"). Once the close action sits in a `finally`, the
+   hypothesis is `reflexivity`. *)
+Theorem C18_iff_close_fault_partial : close_faults_safeb = true ->
+  forall cap p evs, Forall obs_ok_full (st_log (run (init_at cap p) evs)).
+Proof. intros H cap p evs. exact (ownership_iff_full cap p evs H). Qed.
+Print Assumptions C18_iff_close_fault_partial.
+
+(* the close method itself raises (the j-th of its statements that may use the stream), after any history: the handle is
+   gone; a stream laspy was told to leave open is open; a stream laspy owns is closed under the same hypothesis *)
+Theorem C18_close_fault : forall cap p evs via j x h, st_h (run (init_at cap p) evs) = Some h ->
+  let r := step (run (init_at cap p) evs) (EEndFault via j x) in
+  snd r = RRaised x ->
+  st_h (fst r) = None /\ (h_declared h = false -> s_closed (st_s (fst r)) = false)
+  /\ (close_faults_safeb = true -> s_closed (st_s (fst r)) = h_declared h).
+Proof. exact close_fault_gone. Qed.
+Print Assumptions C18_close_fault.
+
+(* a reader's close cannot fail half-way: neither LasReader.close nor the point readers' close it delegates to has a
+   statement that uses the stream other than the close itself *)
+Theorem C18_reader_close_no_fault_point : forall cf hp ss,
+  gen_close_reader_faults cf hp ss = [] /\ gen_close_uncompressed_faults cf hp ss = [] /\ gen_close_empty_faults cf hp ss = [].
+Proof. exact reader_close_no_fault_point. Qed.
+Print Assumptions C18_reader_close_no_fault_point.
+
+(* a stream operation fails while the constructor runs, in any mode, with any class of exception (an Exception or not):
+   the open raises it, no handle, closed iff closefd *)
+Theorem C18_open_fault : forall t m cf re f x, st_h t = None -> s_closed (st_s t) = false ->
+  (gen_open_pre_assert_seekable m = true -> s_seekable (st_s t) = true) ->
+  (is_a m = true -> s_seekable (st_s t) = true) ->
+  let r := step t (EOpen m cf re f (OFault x)) in
+  snd r = RRaised x /\ st_h (fst r) = None /\ s_closed (st_s (fst r)) = cf.
+Proof. exact open_fault. Qed.
+Print Assumptions C18_open_fault.
+
+(* a stream operation fails under an operation on the handle (read_points, read, seek, chunk iteration, write_points,
+   append_points, write_evlrs): the operation raises and lets go of nothing - the stream is as it was, the handle keeps
+   its closefd ... *)
+Theorem C18_op_fault_keeps : forall t h x, st_h t = Some h ->
+  let r := step t (EOpFault x) in
+  snd r = RRaised x /\ st_s (fst r) = st_s t /\
+  exists h', st_h (fst r) = Some h' /\ h_closefd h' = h_closefd h /\ h_declared h' = h_declared h /\ h_mode h' = h_mode h.
+Proof. exact op_fault_keeps. Qed.
+Print Assumptions C18_op_fault_keeps.
+
+(* ... and when the handle is then let go of - the exception leaves the with block, or it was caught inside and the block
+   is left normally, or close() is called - after any history: closed iff closefd *)
+Theorem C18_op_fault_then_gone : forall cap p evs x e h, is_end e = true -> st_h (run (init_at cap p) evs) = Some h ->
+  let t := fst (step (run (init_at cap p) evs) (EOpFault x)) in
+  st_h (fst (step t e)) = None /\ s_closed (st_s (fst (step t e))) = h_declared h.
+Proof. exact op_fault_then_gone. Qed.
+Print Assumptions C18_op_fault_then_gone.
+
+(* laspy.read whose read() fails because the stream did, after its open succeeded: closed iff closefd *)
+Theorem C18_read_las_fault : forall cap p evs cf f x,
+  st_h (run (init_at cap p) evs) = None -> s_closed (st_s (run (init_at cap p) evs)) = false ->
+  st_h (fst (step (run (init_at cap p) evs) (EReadLasFault cf f x))) = None /\
+  s_closed (st_s (fst (step (run (init_at cap p) evs) (EReadLasFault cf f x)))) = cf.
+Proof. exact read_las_fault_closes. Qed.
+Print Assumptions C18_read_las_fault.
 
 (* opening fails (whatever the mode, the failure and the class of the exception): no handle, closed iff closefd *)
 Theorem C18_failed_open : forall t m cf re f o x, st_h t = None -> s_closed (st_s t) = false ->
@@ -166,10 +241,14 @@ Proof. exact precondition_untouched. Qed.
 Print Assumptions C18_w_nonseekable_untouched.
 
 (* shapes checked by the translator: __exit__ is self.close() for the three classes; the point source is created lazily
-   on the reader's own source; header reading touches the caller's stream by the prefetch, then read_evlrs under the flag *)
+   on the reader's own source; header reading touches the caller's stream by the prefetch, then read_evlrs under the flag;
+   no function of the modules a stream travels through other than open_las, read_las, the close/__exit__ methods and
+   LasData._write_to calls .close()/.__exit__()/.detach() or puts an object it did not create in a `with` statement (an
+   operation on a handle - read_points, seek, write_points .. - and what it calls never lets go of the stream) *)
 Theorem C18_skeleton_shapes :
-  (forall m, gen_exit_closes m = true) /\ gen_point_source_lazy = true /\ gen_read_from_prefetch_then_evlrs = true.
-Proof. exact (conj gen_exit_closes_all (conj eq_refl eq_refl)). Qed.
+  (forall m, gen_exit_closes m = true) /\ gen_point_source_lazy = true /\ gen_read_from_prefetch_then_evlrs = true
+  /\ gen_only_close_closes = true.
+Proof. exact (conj gen_exit_closes_all (conj eq_refl (conj eq_refl eq_refl))). Qed.
 Print Assumptions C18_skeleton_shapes.
 
 (* an empty 1.4 file with one EVLR, opened without preloading on a seekable stream with closefd: read() creates the
@@ -195,11 +274,29 @@ Example C18_nonvacuous :
        (trace (init_at CapNo 64) [EOpen MR false true f2 OOk; EReadPoints 2; EReadAll; EExit; EReadLas true f2 OEmpty]),
    map (fun '(r, t) => (r, s_closed (st_s t), s_pos (st_s t)))
        (trace (init_at CapAbsent 10) [EOpen MW true true f1 OOk; EOpen MA false true f1 OOk; EOpen MR false true f3 OOk; EReadPoints 5;
-                                      ESeek 0 0; EBodyRaises XLaspy; EReadLas true f3 OBadSig]))
+                                      ESeek 0 0; EBodyRaises XLaspy; EReadLas true f3 OBadSig]),
+   (* failures of the stream itself: under read_points of a reader with closefd=false (caught, a further read, then the
+      with-body raises: still open), then a KeyboardInterrupt-like failure while opening with closefd: closed;
+      a writer with closefd=false whose write fails, then whose close fails: open; an append open with closefd that fails
+      with a LaspyException of the stream: closed; laspy.read on a non-seekable stream whose read() fails: open / closed *)
+   map (fun '(r, t) => (r, s_closed (st_s t), match st_h t with Some h => Some (h_ps h) | None => None end))
+       (trace (init CapYes) [EOpen MR false true f1 OOk; EOpFault XOther; EReadPoints 1; EBodyRaises XOther; ERewind 0;
+                             EOpen MR true true f1 (OFault XBase)]),
+   map (fun '(r, t) => (r, s_closed (st_s t), map (fun o => (o_how o, o_closefd o, o_closed o)) (st_log t)))
+       (trace (init CapYes) [EOpen MW false true f1 OOk; EWrite; EOpFault XOther; EEndFault true 0 XOther;
+                             EOpen MA true true f1 (OFault XLaspy)]),
+   map (fun '(r, t) => (r, s_closed (st_s t)))
+       (trace (init CapNo) [EReadLasFault false f1 XOther; EReadLasFault true f1 XBase]))
   = ([(RDone, false, 375, Some PNone); (RDone, false, 375, Some (PNull true)); (RDone, true, 375, None); (RRaised XOther, true, 375, None)],
      [(RRaised XOther, true, 0)],
      [(RDone, false, 227); (RDone, false, 267); (RDone, false, 307); (RDone, false, 307); (RDone, false, 307); (RDone, false, 0); (RDone, true, 327)],
      [(RDone, false, 291); (RDone, false, 331); (RRaised XOther, false, 374); (RDone, false, 374); (RRaised XLaspy, true, 374)],
      [(RRaised XOther, false, 10); (RRaised XOther, false, 10); (RDone, false, 237); (RDone, false, 337); (RRaised XOther, false, 337);
-      (RRaised XLaspy, false, 337); (RRaised XLaspy, true, 337)]).
+      (RRaised XLaspy, false, 337); (RRaised XLaspy, true, 337)],
+     [(RDone, false, Some PNone); (RRaised XOther, false, Some (PReal true)); (RDone, false, Some (PReal true));
+      (RRaised XOther, false, None); (RDone, false, None); (RRaised XBase, true, None)],
+     [(RDone, false, []); (RDone, false, []); (RRaised XOther, false, []);
+      (RRaised XOther, false, [(HCloseFault, false, false)]);
+      (RRaised XLaspy, true, [(HCloseFault, false, false); (HFailedOpen, true, true)])],
+     [(RRaised XOther, false); (RRaised XBase, true)]).
 Proof. vm_compute. reflexivity. Qed.
